@@ -14,7 +14,7 @@ A model value is (family, key):
            (F&O: missing components taken from 1972-12-31), tz | None)                  eq / ne only
   duration ymd dtd  key = (months, seconds Fraction)    eq across the three; order only ymd x ymd and dtd x dtd
   qname    key = (namespace, local)                     eq / ne only
-  hex b64  key = bytes                                  eq / ne judged (order operators exist from F&O 3.1 only: not judged)
+  hex b64  key = bytes                                  eq / ne, and the octet order of F&O 3.1 (the drivers use the 3.1 parser)
   node     (only for EBV)
 
 Outcomes: ('val', bool) | ('err', code) | ('unjudged',).
@@ -91,9 +91,8 @@ def value_compare(op, a, b, implicit_tz=0):
             return ('val', (ka == kb) if op == 'eq' else (ka != kb))
         return ('err', 'XPTY0004')
     if fa == fb and fa in ('hex', 'b64'):
-        if op in ('eq', 'ne'):
-            return ('val', (ka == kb) if op == 'eq' else (ka != kb))
-        return ('unjudged',)
+        # F&O 3.1 op:hexBinary-less-than / op:base64Binary-less-than: octet by octet, a proper prefix is less
+        return ('val', _apply(op, _cmp(list(ka), list(kb))))
     return ('err', 'XPTY0004')
 
 
@@ -335,6 +334,7 @@ def selftest():
     assert vc('eq', ('gDay', (Fraction(86400), 840)), ('gDay', (Fraction(0), -600))) == ('val', True)     # ---02+14:00 eq ---01-10:00
     assert vc('eq', ('dateTime', (Fraction(0), None)), ('dateTime', (Fraction(-18000), 0)), implicit_tz=-300) == ('val', False)
     assert vc('eq', ('dateTime', (Fraction(0), None)), ('dateTime', (Fraction(18000), 0)), implicit_tz=-300) == ('val', True)
+    assert vc('lt', ('b64', b'a'), ('b64', b'abc')) == ('val', True) and vc('lt', ('hex', b'\x00'), ('b64', b'\x01')) == ('err', 'XPTY0004')
     gc = general_compare
     assert gc('=', [('untyped', '1')], [I(1)]) == {('val', True)} and gc('=', [('untyped', 'x')], [I(1)]) == {('err', 'FORG0001')}
     assert gc('=', [('untyped', '1.0')], [('untyped', '1')]) == {('val', False)} and gc('=', [], [I(1)]) == {('val', False)}
